@@ -65,11 +65,13 @@ class KVBench:
         if q is None:
             return None
         impl = self.impl
+        pristine = q.model_copy(deep=True)
         try:
             plan = impl.plan(q, default_limit=default_limit)
         except Exception as e:  # planner must not raise
             self.report.property_failure("planner raised %r" % (e,), {"filter": fdict}, None)
             return None
+        q = pristine
         mf = model_filter(q) if self.in_model else None
         res = {"filter": fdict, "q": q, "in_model": mf is not None, "plan": plan}
         if mf is not None:
